@@ -41,6 +41,7 @@ from typing import Callable, Dict, List, Optional, Tuple
 # obligations about that function (and about its callers) stop checking, instead of every obligation importing the file.  A stub
 # can make no obligation pass: each obligation states generated = hand model, and no hand model is that constant error.
 FUNCTION_STUBS = []      # (output file, "Class.method", message)
+CURRENT_OUTFILE = ["?"]  # the output file main() is generating (for the generators that do not name it themselves)
 
 
 def function_stub(outfile, qualname, ex):
@@ -873,7 +874,12 @@ def translate_function(cls, fdef, monadic, rtype, assumptions, implicit="", name
     if cls == "TermList" and fdef.name == "__init__":
         params = params[1:]
         env.pop("self")
-    body = fn.block(list(fdef.body), env, "  ", None)
+    try:
+        body = fn.block(list(fdef.body), env, "  ", None)
+    except Unsupported as ex:
+        if not monadic:
+            raise
+        body = function_stub(CURRENT_OUTFILE[0], f"{cls}.{fdef.name}" if cls else fdef.name, ex)
     sig = " ".join(f"({n} : {COQTY[t]})" for n, t, _ in params)
     rt = {"C": "contract", "B": "bool", "LV": "list var", "TL": "list term", "C*LST": "(contract * list stats)",
           "KEY": "(list var * list var * list term * list term)", "LA": "list A"}[rtype]
@@ -3039,7 +3045,12 @@ def n_signature(world: World, cls: str, f: ast.FunctionDef, rtype_annot: Dict[st
 
 def n_define(world: World, prefix: str, f: ast.FunctionDef, params, rty, monadic, assumptions, selfname="self") -> str:
     fn = NFn(world, f, monadic, rty, assumptions)
-    body = fn.translate(params)
+    try:
+        body = fn.translate(params)
+    except Unsupported as ex:
+        if not monadic:
+            raise
+        body = function_stub(CURRENT_OUTFILE[0], f"{prefix}.{f.name}", ex)
     ps = ([] if f.name == "__init__" else [(selfname, world.selfty)]) + [(n_cid(n), t) for n, t, _ in params]
     sig = " ".join(f"({n} : {N_COQTY[t]})" for n, t in ps)
     rt_ = N_COQTY[rty]
@@ -3380,6 +3391,7 @@ def main(repo, outdir):
     assumptions = set()
 
     def guard(name, thunk):
+        CURRENT_OUTFILE[0] = name
         try:
             out = thunk()
         except Unsupported as ex:
